@@ -628,6 +628,12 @@ impl<'t, F: CKind> CSession<'t, F> {
         self.begin("c:unref");
         unsafe { (self.api.unref)(inv) };
         self.out.emit(json!({"ev":"noop","what":"unref","ret_invalid": true}));
+        // manager_ref / manager_unref of the invalid manager handle: documented no-ops
+        self.begin("c:manager_ref");
+        let minv = mgr_t { p: std::ptr::null() };
+        let r = unsafe { (self.api.manager_ref)(minv) };
+        unsafe { (self.api.manager_unref)(minv) };
+        self.out.emit(json!({"ev":"noop","what":"manager_ref","ret_invalid": r.p.is_null()}));
         self.begin("c:node_level");
         let l = unsafe { (self.api.node_level)(inv) };
         let v = unsafe { (self.api.node_var)(inv) };
@@ -950,8 +956,11 @@ impl<'t, F: CKind> CSession<'t, F> {
         let file = unsafe { oxidd_dddmp_open(path.as_ptr().cast(), path.len(), &mut err) };
         let open_err = Self::take_err(err);
         if file.is_null() {
+            // does the Rust API reject the file as well?
+            let rm = self.rm.as_ref().unwrap();
+            let r_ok = matches!(catch(|| F::r_import(rm, path)), Ok(Ok(_)));
             self.out.emit(json!({"ev":"io","what":"dddmp_open","a":roots,"named":false,"inv_in":false,"c_ok":false,"c_err":open_err,
-                "c_size":0,"r_ok":true,"r_size":0,"same_bytes":false}));
+                "c_size":0,"r_ok":r_ok,"r_size":0,"same_bytes":false}));
             return Vec::new();
         }
         let nroots = unsafe { oxidd_dddmp_num_roots(&*file) };
